@@ -540,6 +540,11 @@ impl Prop for C37 {
         d.run("crypto", 0, n, 1500, case_strategy(), &mk_env, &check);
         d.finish()
     }
+    /// a fresh environment loads library(crypto) (and with it clpz): shrinking a failure costs up
+    /// to 400 of those, so the watchdog is generous (it only matters when something fails)
+    fn watchdog_s(&self, tier: Tier) -> u64 {
+        tier.pick(3600, 14400)
+    }
     fn replay(&self, _kind: &str, case: &Value) -> Verdict {
         replay_case::<Case, Env>(case, &mk_env, &check)
     }
